@@ -923,6 +923,9 @@ def gen_service_config(rng, spec, p_named=0.7):
                 "retryableStatusCodes": rng.sample(ALL_CODES, ncodes),
             }
         entries.append(e)
+    if rng.random() < 0.08:
+        # legal and inert: an entry that names no method at all (gRPC: applies to nothing), e.g. a forgotten default
+        entries.insert(rng.randrange(len(entries) + 1), {"timeout": "45s"})
     return {"methodConfig": entries}
 
 
